@@ -65,50 +65,26 @@ impl Check for C09 {
             1 => iff::enum_case(ctx, ty, SALT, idx / 8, &MSG_TYPES, 1),
             2 => iff::mutant_case(ctx, ty, &MSG_TYPES),
             3 => {
+                if ctx.rng.chance(1, 24) {
+                    // arities that are congruent to a legal one modulo 2^8 / 2^16: the first slots of a
+                    // valid message followed by surplus empty byte strings
+                    let ty = MSG_TYPES[ctx.rng.below(8)];
+                    let v = gen::gen_mval(&mut ctx.rng, ty, &GenOpts::wire());
+                    if let Item::Array(mut a) = model::encode(&v) {
+                        let n = if ctx.rng.chance(1, 40) { *ctx.rng.pick(&[65539usize, 65540, 65541]) } else { *ctx.rng.pick(&[255usize, 256, 257, 258, 259, 260, 261, 262, 263, 515, 516, 517]) };
+                        while a.len() < n {
+                            a.push(Item::Bytes(vec![]));
+                        }
+                        ctx.count("arity-aliases");
+                        iff::offer(ctx, &Item::Array(a), &MSG_TYPES, 0, false, true);
+                    }
+                    return;
+                }
                 let n = ctx.rng.below(8);
                 let a: Vec<Item> = (0..n).map(|_| slot_value(ctx)).collect();
                 iff::offer(ctx, &Item::Array(a), &MSG_TYPES, 1, false, true);
             }
-            6 => {
-                use crate::capi;
-                use crate::hostile;
-                use crate::model::Ty;
-                let c = (idx % 11) as usize;
-                let form = (idx / 11) as u8;
-                let chain = if c == 0 { vec![0xa1, 0x04, 0x41, 0x11] } else { hostile::b1_header(c, form) };
-                let mut verdicts: Vec<(usize, &'static str, bool)> = Vec::new();
-                for r in 0..=13usize {
-                    let rcp = hostile::b3_recipient(r, &chain);
-                    let mut enc = vec![0x84, 0x40, 0xa0, 0xf6, 0x81];
-                    enc.extend_from_slice(&rcp);
-                    let mut mac = vec![0x85, 0x40, 0xa0, 0x41, 0x00, 0x40, 0x81];
-                    mac.extend_from_slice(&rcp);
-                    for (ty, name, b) in [(Ty::Recipient, "COSE_recipient", &rcp), (Ty::Encrypt, "COSE_Encrypt", &enc), (Ty::Mac, "COSE_Mac", &mac)] {
-                        ctx.eval();
-                        ctx.nontrivial_bytes(b);
-                        match capi::from_slice(ty, b) {
-                            Ok(_) => verdicts.push((r, name, true)),
-                            Err(capi::EK::Panic(s)) => ctx.violation(&format!("C09/panic/{}", s), format!("decoding panicked at {}", s), crate::json::J::obj(vec![("hex", crate::json::J::Str(crate::rcbor::hex(b)))])),
-                            Err(_) => verdicts.push((r, name, false)),
-                        }
-                    }
-                }
-                // reference: the same header on a recipient that nothing encloses
-                let base = verdicts.iter().find(|v| v.0 == 0 && v.1 == "COSE_recipient").map(|v| v.2);
-                if let Some(base) = base {
-                    ctx.count(if base { "layered-chain-accepted" } else { "layered-chain-rejected" });
-                    for (r, name, ok) in &verdicts {
-                        if *ok != base {
-                            ctx.violation(
-                                &format!("C09/recipient-layering-changes-acceptance/{}", name),
-                                format!("a recipient whose protected header holds a chain of {} counter signature(s) (form {}) is {} on its own but {} when {} recipient layer(s) of a {} enclose it", c, form, if base { "accepted" } else { "rejected" }, if *ok { "accepted" } else { "rejected" }, r, name),
-                                crate::json::J::obj(vec![("chain_length", crate::json::J::UInt(c as u64)), ("layers", crate::json::J::UInt(*r as u64)), ("form", crate::json::J::UInt(form as u64))]),
-                            );
-                            break;
-                        }
-                    }
-                }
-            }
+            6 => super::common::layering_relation_case(ctx, idx),
             5 => {
                 let o = GenOpts::wire();
                 let sig = model::enc_signature(&gen::gen_signature(&mut ctx.rng, &o, 2));
